@@ -11,7 +11,7 @@
    (C01_sound_full below); those are decided per run by the oracle of tools/props/c01.py on the
    real implementation (raw unit of every global through the hook vs the inferred type). *)
 From Coq Require Import String List ZArith QArith Qcanon Bool.
-From NV Require Import Dim.Model Dim.Infer Dim.Sem Dim.Proofs Dim.Run Dim.RunProofs.
+From NV Require Import Dim.Model Dim.Infer Dim.Sem Dim.Proofs Dim.Run Dim.RunProofs Dim.RunTreeProofs.
 Import ListNotations.
 Open Scope string_scope.
 
@@ -25,22 +25,22 @@ Theorem C01_binop_agree_partial :
 Proof. exact binop_agree. Qed.
 Print Assumptions C01_binop_agree_partial.
 
-(* full statement, not proved: run-time evaluation of dimensions over whole expressions *)
-Fixpoint rt_expr (g : string -> option dtype) (rexp : expr -> option Qc) (e : expr) : rtres :=
-  match e with
-  | EScalar _ => RDim dscalar
-  | EIdent x | EUnit x => match g x with Some d => RDim d | None => RNone end
-  | EUn UNeg a => rt_expr g rexp a
-  | EBin o a b =>
-      match rt_expr g rexp a, rt_expr g rexp b with
-      | RDim d1, RDim d2 => rt_binop o d1 d2 (rexp b)
-      | RIncompatible, _ | _, RIncompatible => RIncompatible
-      | _, _ => RNone
-      end
-  | EBool _ => RBool
-  | _ => RNone
-  end.
+(* The agreement lifted to whole expression trees of the arithmetic fragment (non-zero literals,
+   names, unary minus, + - -> * / ^ with constant exponents) over a closed, monomorphic
+   environment: if the checker's elaboration accepts e, then its type is a variable-free dimension
+   type TDim d and the run-time evaluation of unit dimensions yields exactly RDim d — in
+   particular it never yields IncompatibleUnits — under ExpAgree (exp_agree_all) and when the
+   run-time environment carries, for every name, a unit of the dimension of its static type. *)
+Theorem C01_expr_agree_partial :
+  forall (gs : env) (g : string -> option dtype) (rexp : expr -> option Qc),
+    env_agree gs g -> exp_agree_all rexp ->
+    forall e, arith e -> forall s t ns s1,
+      tc_env s = gs -> elab_expr e s = Ok (t, ns, s1) ->
+      tc_env s1 = gs /\ exists d, t = TDim d /\ novar d = true /\ rt_expr g rexp e = RDim d.
+Proof. exact rt_expr_agree. Qed.
+Print Assumptions C01_expr_agree_partial.
 
+(* full statement, not proved (rt_expr is in Dim/Run.v) *)
 Definition C01_sound_full : Prop :=
   forall (s : tc) (g : string -> option dtype) (rexp : expr -> option Qc) (e : expr) (sc : scheme) (s' : tc),
     (* the run-time environment carries, for every name, a unit of the dimension of its type *)
@@ -59,3 +59,25 @@ Example C01_nonvacuous :
   /\ rt_binop OAdd dL dL None = RDim dL
   /\ rt_binop OAdd dL [(FBase "Time", Qc1)] None = RIncompatible.
 Proof. vm_compute. repeat split; reflexivity. Qed.
+
+(* non-vacuity of the tree theorem: the two-unit environment agrees with its run-time reading, and
+   (2 meter / second) ^ 2 evaluates statically and dynamically to Length^2 / Time^2 *)
+Definition ex01_env : env :=
+  [("meter", IdNormal (Quantified 0 (TDim [(FBase "Length", Qc1)]) []));
+   ("second", IdNormal (Quantified 0 (TDim [(FBase "Time", Qc1)]) []))].
+Definition ex01_g (x : string) : option dtype :=
+  if String.eqb x "meter" then Some [(FBase "Length", Qc1)]
+  else if String.eqb x "second" then Some [(FBase "Time", Qc1)] else None.
+Example C01_tree_nonvacuous :
+  env_agree ex01_env ex01_g /\
+  arith (EBin OPow (EBin ODiv (EBin OMul (EScalar (qc 2)) (EUnit "meter")) (EUnit "second")) (EScalar (qc 2))).
+Proof.
+  split.
+  - intro x. unfold ex01_env, ex01_g. simpl.
+    destruct (String.eqb x "meter"); [repeat split; reflexivity|].
+    destruct (String.eqb x "second"); [repeat split; reflexivity|exact I].
+  - assert (N : qc 2 <> Qc0) by (intro E; apply (f_equal this) in E; vm_compute in E; discriminate).
+    apply ABin; [auto 10| |apply AScalar; exact N].
+    apply ABin; [auto 10| |apply AUnit].
+    apply ABin; [auto 10|apply AScalar; exact N|apply AUnit].
+Qed.
